@@ -106,6 +106,8 @@ def _pop_paths(ctx):
             def visit_Call(self, node):
                 if u(node) == SIZE:
                     return ast.Constant(value=size_now)
+                if u(node) == "self.heap.empty()":
+                    return ast.Constant(value=(size_now == 0))
                 return node
 
             def visit_Name(self, node):
@@ -179,7 +181,7 @@ def _pop_paths(ctx):
                 continue
             if raises:
                 continue
-            fe_ok = binds.get("first_entry") == "self.heap[0]"
+            fe_ok = binds.get("first_entry") in ("self.heap[0]", "self.heap.front()")
             ret_ok = any(k == "return" and a == "first_entry" for k, a, c in order)
             er = idx("call self.positions.erase(first_entry.second)")
             pb = idx("call self.heap.pop_back()")
@@ -196,7 +198,7 @@ def _pop_paths(ctx):
                 if mv is not None or rp is not None:
                     problems.append(("moved-last-entry-repointed-to-0", "with a single entry nothing must be moved to slot 0", ps))
             else:
-                le_ok = binds.get("last_entry", "").replace(" ", "") in ("self.heap[self.heap.size()-1]",) and (pb is None or True)
+                le_ok = binds.get("last_entry", "").replace(" ", "") in ("self.heap[self.heap.size()-1]", "self.heap.back()") and (pb is None or True)
                 # last_entry must be read before the heap shrinks
                 bind_pos = [i_ for i_, (k, a, c) in enumerate(kinds) if k == "bind" and a == "last_entry"]
                 pb_pos = [i_ for i_, (k, a, c) in enumerate(kinds) if k == "call" and a.startswith("self.heap.pop_back")]
